@@ -2,6 +2,7 @@ package main
 
 import (
 	"bytes"
+	"context"
 	"encoding/hex"
 	"encoding/json"
 	"fmt"
@@ -14,6 +15,7 @@ import (
 	"path/filepath"
 	"strings"
 	"sync"
+	"sync/atomic"
 	"syscall"
 	"time"
 
@@ -40,6 +42,9 @@ type proxyCase struct {
 	LogOff   bool     `json:"operator_switches_message_log_off,omitempty"`
 	NMEAOnly bool     `json:"nmea_sentence_per_chunk,omitempty"`
 	Seed     uint64   `json:"seed"`
+	// stall sessions: the upstream stops reading for StallMs during an upload of StallBytes
+	StallMs    int `json:"upstream_stall_ms,omitempty"`
+	StallBytes int `json:"upload_bytes,omitempty"`
 }
 
 // The fixed template of apps/proxy/reportfeed/reportpage.go, pinned here as the
@@ -188,9 +193,48 @@ type proxyProc struct {
 }
 
 func startProxy(c *child.Ctx, id int) (*proxyProc, error) {
+	return startProxyX(c, id, false)
+}
+
+// startProxyX: with smallWindow the upstream server advertises a small receive
+// window, so that an upstream that stops reading soon blocks the proxy's writes.
+func startProxyX(c *child.Ctx, id int, smallWindow bool) (*proxyProc, error) {
+	// The two ports the proxy is told to listen on are found by binding and releasing
+	// them, so another process can take one in between (many checks run side by side).
+	// A start is accepted only when the process that answers on the proxy port dials
+	// OUR upstream listener and our process is still alive afterwards; otherwise the
+	// attempt is discarded and repeated with other ports.
+	var p *proxyProc
+	var err error
+	for attempt := 0; attempt < 8; attempt++ {
+		p, err = startProxyOnce(c, id, smallWindow)
+		if err == nil {
+			return p, nil
+		}
+		if p != nil {
+			detail := p.stderrTail()
+			p.stop()
+			p = nil
+			if !strings.Contains(detail, "address already in use") && !strings.Contains(err.Error(), "not ours") {
+				return nil, fmt.Errorf("%v: %s", err, clipText(detail))
+			}
+		}
+		time.Sleep(time.Duration(50*(attempt+1)) * time.Millisecond)
+	}
+	return nil, err
+}
+
+func startProxyOnce(c *child.Ctx, id int, smallWindow bool) (*proxyProc, error) {
 	p := &proxyProc{dir: filepath.Join(c.WorkDir, fmt.Sprintf("proxy%d", id)), exited: make(chan struct{})}
+	os.RemoveAll(p.dir)
 	os.MkdirAll(p.dir, 0755)
-	up, err := net.Listen("tcp", "127.0.0.1:0")
+	lc := net.ListenConfig{}
+	if smallWindow {
+		lc.Control = func(network, address string, rc syscall.RawConn) error {
+			return rc.Control(func(fd uintptr) { syscall.SetsockoptInt(int(fd), syscall.SOL_SOCKET, syscall.SO_RCVBUF, 8192) })
+		}
+	}
+	up, err := lc.Listen(context.Background(), "tcp", "127.0.0.1:0")
 	if err != nil {
 		return nil, err
 	}
@@ -207,6 +251,7 @@ func startProxy(c *child.Ctx, id int) (*proxyProc, error) {
 	p.cmd.Stderr = ef
 	p.cmd.Stdout = ef
 	if err := p.cmd.Start(); err != nil {
+		up.Close()
 		return nil, err
 	}
 	go func() { p.cmd.Wait(); ef.Close(); close(p.exited) }()
@@ -220,10 +265,28 @@ func startProxy(c *child.Ctx, id int) (*proxyProc, error) {
 		conn, err := net.DialTimeout("tcp", fmt.Sprintf("127.0.0.1:%d", p.proxyPort), 200*time.Millisecond)
 		if err == nil {
 			// this probe connection makes the proxy dial upstream too: drain and close both
-			if uc, err := acceptWithin(p.upstream, 5*time.Second); err == nil {
-				uc.Close()
-			}
+			uc, uerr := acceptWithin(p.upstream, 5*time.Second)
 			conn.Close()
+			if uerr != nil {
+				return p, fmt.Errorf("what answers on port %d is not ours (no upstream connection followed)", p.proxyPort)
+			}
+			uc.Close()
+			// the control port must answer too, and our process must have survived binding both
+			for j := 0; j < 100; j++ {
+				cl := http.Client{Timeout: 5 * time.Second}
+				if resp, err := cl.Get(fmt.Sprintf("http://127.0.0.1:%d/status/report", p.ctlPort)); err == nil {
+					resp.Body.Close()
+					break
+				}
+				if !p.alive() {
+					break
+				}
+				time.Sleep(20 * time.Millisecond)
+			}
+			time.Sleep(30 * time.Millisecond)
+			if !p.alive() {
+				return p, fmt.Errorf("proxy exited during start-up")
+			}
 			return p, nil
 		}
 		time.Sleep(20 * time.Millisecond)
@@ -955,12 +1018,117 @@ func listedAreRelayedCyclic(listed [][]byte, msgs []handler.Message) string {
 	return fmt.Sprintf("the report lists %d messages that are not a contiguous run of the messages added (first listed: %s)", len(listed), clip(hexs(listed[0])))
 }
 
+// execC19Stall: the upstream server stops reading for a while in the middle of a
+// large upload (a caster under load) and then carries on: it must still receive
+// every byte in order - a proxy whose write is held up has to wait, not skip.
+func execC19Stall(c *child.Ctx, k proxyCase, cj []byte) {
+	p, err := startProxyX(c, k.ID, true)
+	if err != nil {
+		if p != nil {
+			p.stop()
+		}
+		c.Inconclusive("proxy could not be started: " + err.Error())
+		return
+	}
+	defer p.stop()
+	data := proxyStream(ref.NewRand(k.Seed), k.StallBytes)
+	conn, err := net.DialTimeout("tcp", fmt.Sprintf("127.0.0.1:%d", p.proxyPort), 5*time.Second)
+	if err != nil {
+		c.Inconclusive("cannot connect to the proxy: " + err.Error())
+		return
+	}
+	defer conn.Close()
+	up, err := acceptWithin(p.upstream, 20*time.Second)
+	if err != nil {
+		c.Inconclusive("the proxy did not connect upstream: " + err.Error())
+		return
+	}
+	defer up.Close()
+	sent := make(chan struct{})
+	var sentBytes int64
+	go func() {
+		rest := data
+		for len(rest) > 0 {
+			n := 16384
+			if n > len(rest) {
+				n = len(rest)
+			}
+			if _, err := conn.Write(rest[:n]); err != nil {
+				break
+			}
+			atomic.AddInt64(&sentBytes, int64(n))
+			rest = rest[n:]
+			tick()
+		}
+		close(sent)
+	}()
+	// the upstream reads a little, then nothing for the stall, then everything
+	first := make([]byte, 3000)
+	nfirst, _ := io.ReadFull(up, first)
+	got := append([]byte(nil), first[:nfirst]...)
+	// wait until the kernel has taken all it will take from the proxy for this
+	// connection (the send queue towards the upstream stops growing): from then on a
+	// proxy that still has data is held up inside its write.  Then stay silent.
+	upPort := up.LocalAddr().(*net.TCPAddr).Port
+	var lastQ, stable int64 = -1, 0
+	for i := 0; i < 600 && stable < 8; i++ {
+		q := sendQueueTowards(upPort)
+		if q == lastQ && q > 0 {
+			stable++
+		} else {
+			stable = 0
+		}
+		lastQ = q
+		sleepTicking(100 * time.Millisecond)
+	}
+	queued := lastQ
+	sleepTicking(time.Duration(k.StallMs) * time.Millisecond)
+	heldBack := int64(len(data)) - int64(nfirst) - queued
+	got = append(got, readN(up, len(data)-nfirst, 30*time.Second, sent)...)
+	if !p.alive() {
+		c.Violate("proxy-died", "the proxy process ended during an upload with a stalled upstream: "+p.stderrTail(), cj)
+		return
+	}
+	if !bytes.Equal(got, data) {
+		c.Violate("client-to-server-differs", fmt.Sprintf("the upstream server stopped reading for %d ms during an upload of %d bytes (%d of them queued in the kernel towards it, %d still to be written by the proxy): it received %d bytes: %s",
+			k.StallMs, len(data), queued, heldBack, len(got), firstDiff(got, data)), cj)
+		return
+	}
+	c.Count("upstream_stall_sessions", 1)
+	if heldBack > 0 {
+		c.Count("upstream_stall_sessions_with_the_upload_held_up", 1)
+	}
+}
+
+// sendQueueTowards returns the number of bytes queued in the kernel on the local
+// socket whose peer is 127.0.0.1:port (from /proc/net/tcp), or -1.
+func sendQueueTowards(port int) int64 {
+	b, err := os.ReadFile("/proc/net/tcp")
+	if err != nil {
+		return -1
+	}
+	want := fmt.Sprintf("0100007F:%04X", port)
+	for _, ln := range strings.Split(string(b), "\n") {
+		f := strings.Fields(ln)
+		if len(f) < 5 || f[2] != want {
+			continue
+		}
+		var tx, rx int64
+		if _, err := fmt.Sscanf(f[4], "%x:%x", &tx, &rx); err == nil {
+			return tx
+		}
+	}
+	return -1
+}
+
 func monC19(c *child.Ctx, replay json.RawMessage) {
 	if replay != nil {
 		var k proxyCase
 		json.Unmarshal(replay, &k)
 		c.Begin(replay)
-		if k.Kind == "status" {
+		if k.Kind == "stall" {
+			execC19Stall(c, k, replay)
+		} else if k.Kind == "status" {
 			execC19Status(c, k, replay)
 		} else if k.Kind == "concurrent" {
 			for i := 0; i < 20 && c.NViolations() == 0; i++ {
@@ -1000,6 +1168,12 @@ func monC19(c *child.Ctx, replay json.RawMessage) {
 		c.Eval(ref.Hash64(cj), true)
 	}
 	os.Stderr = saved
+	if sb := c.NBatch - 1 - c.Batch; sb < len(timedStalls(c)) && timedStalls(c)[sb] >= time.Second && c.NViolations() == 0 {
+		k := proxyCase{ID: c.Batch*10000 + 9500, Kind: "stall", Seed: r.Uint64() >> 1, StallMs: int(timedStalls(c)[sb].Milliseconds())*10 + 500, StallBytes: 6000000}
+		cj := c.BeginV(k)
+		execC19Stall(c, k, cj)
+		c.Eval(ref.Hash64(cj), true)
+	}
 	ns := c.Share(c.Pick(40, 1500))
 	for i := 0; i < ns; i++ {
 		k := proxyCase{Two: i%2 == 0, LogOff: i%4 == 3, ID: c.Batch*10000 + i, Kind: "session", Chunk: []int{0, 1, 17, 512, 4096}[r.Intn(5)], GapUs: []int{0, 200, 2000}[r.Intn(3)], Seed: r.Uint64() >> 1}
